@@ -66,7 +66,10 @@ here, everything else commutes (each release touches its own resource only — `
    released exactly once, in any order, and an error — never a handle — is returned  [`checkClone`, `mmapCleanup`];
  * thread: call → store of the result → hand-over CAS; a thread that lost the CAS resets its clear-tid address,
    then drops the unread result, then frees the block  [`setTidRet`, `dropValT`]; the thread-local block is freed
-   exactly once, after every piece of user code (the call, the drop of the result); the winner frees nothing shared;
+   exactly once, after every piece of user code (the call, the drop of the result); the winner frees nothing shared.
+   The drop of the result is user code that may panic: the model lets the panic handler start from that point
+   (`tDropPanic`), and that the block and the thread-local block are released only *after* it is exactly what
+   `dropValTOf` / `epilogueShape` demand of the source (Props/C06 `destructor_runs_before_any_release`);
  * panic handler: tls is copied out before it is freed, exactly once on every thread path; loser: CAS → clear-tid
    reset → free  [`setTidPanic`]; the stack-unmap + exit asm is last;
  * join: wait → read the slot → free the block, on every path; the handle's destructor is suppressed;
